@@ -455,3 +455,25 @@ def cross_solver(ck, module_dir, harness_paths, pkgname, run_re, env=None, use_m
         total += len(base)
     ck.extra["cross_solver"] = {"harnesses": run_re, "transcripts": files, "queries_compared": total,
                                 "solvers": ["z3 4.8.12", "z3 5.1.0", "cvc5 1.0"], "agree": True}
+
+
+def engine_selftest(ck):
+    """Go-semantics regression harnesses: must pass inside symgo AND natively; anything else aborts (exit 2)."""
+    mod = os.path.join(REPO, "pkg/buf")
+    hp = [os.path.join(VERIF, "harness/selftest"), API_DIR]
+    res = run_symgo(mod, hp, "buf", "^Harness_Self_", steps=1000000, timeout=120, samples=1)
+    rp = NativeReplayer(mod, "buf", hp)
+    bad = []
+    for h in res.get("harnesses") or []:
+        if h.get("violations") or not h.get("complete") or not h["status"].get("ok"):
+            bad.append((h["harness"], h["status"], [v["msg"] for v in (h.get("violations") or [])][:3], h.get("messages")))
+        empty = os.path.join(scratch(), "empty_replay.json")
+        json.dump({"assignment": {}}, open(empty, "w"))
+        outcome, detail = rp.run(h["harness"], empty, timeout=60)
+        if outcome not in ("ok", "assume"):
+            bad.append((h["harness"], "native", outcome, detail[:300]))
+    if bad or not res.get("harnesses"):
+        print("engine selftest failed: %s" % bad, file=sys.stderr)
+        sys.exit(2)
+    ck.extra["engine_selftest"] = {"harnesses": [h["harness"] for h in res["harnesses"]],
+                                   "paths": sum(h["paths"] for h in res["harnesses"]), "passed_in_engine_and_natively": True}
